@@ -142,6 +142,20 @@ def dump_fw_behavioural(run):
            os.path.join(vf.ROOT, "harness/c/c11_fw_rtdump.c"),
            os.path.join(vf.REPO, "src/shared/libosmocore/src/gsm/gsm_utils.c"), "-o", exe]
     rc, out = vf.sh(cmd, timeout=600)
+    if rc != 0 and "undefined reference" in out:
+        # the tables live in a file of their own next to mframe_sched.c: add the files of layer1/ that define what is missing
+        import re as _re
+        base = os.path.join(vf.REPO, "src/target/firmware/layer1")
+        extra = []
+        for sy in set(_re.findall(r"undefined reference to `([A-Za-z_]\w*)'", out)):
+            for fn in sorted(os.listdir(base)):
+                if fn.endswith(".c") and fn != os.path.basename(FW_C):
+                    txt = _strip_c_comments(open(os.path.join(base, fn), errors="replace").read())
+                    if _re.search(r"^(?!\s*extern\b)[A-Za-z_][^;{}()=]*\b%s\s*(\[[^\]]*\]\s*)*=" % _re.escape(sy), txt, _re.M):
+                        extra.append(os.path.join(base, fn))
+                        break
+        if extra:
+            rc, out = vf.sh(cmd[:-2] + sorted(set(extra)) + cmd[-2:], timeout=600)
     if rc != 0:
         raise vf.HarnessError("behavioural firmware dumper does not compile: %s" % out[-1500:])
     rc, out = vf.sh([exe], timeout=300)
